@@ -247,10 +247,39 @@ func (x *runner) payload(n int) []byte {
 	return x.g.Bytes(n)
 }
 
+// emitOOB runs encodeOOB on a buffer: seqid 0xffffffff, type f3, size field; the encoder's id
+// sequence must not move.
+func (x *runner) emitOOB(payload []byte) {
+	st0 := x.enc.State()
+	b := make([]byte, x.off+fecHdr+2+len(payload))
+	for i := range b[:x.off+fecHdr+2] {
+		b[i] = 0xEE
+	}
+	copy(b[x.off+fecHdr+2:], payload)
+	before := append([]byte(nil), b...)
+	pm := hx.Try(func() { x.enc.EncodeOOB(b) })
+	x.o.Count("op:oob")
+	if pm != "" {
+		x.logOp("oob "+hx.Hex(before), "panic")
+		x.viol("fec-panic", "encodeOOB panicked: "+pm)
+		return
+	}
+	st := x.enc.State()
+	x.logOp("oob "+hx.Hex(before), fmt.Sprintf("data=%s next=%d", hx.Hex(b), st.Next))
+	w := b[x.off:]
+	if st != st0 || binary.LittleEndian.Uint32(w) != 0xffffffff || binary.LittleEndian.Uint16(w[4:]) != 0xf3 ||
+		int(binary.LittleEndian.Uint16(w[6:])) != len(payload)+2 || !bytes.Equal(w[8:], payload) || !bytes.Equal(b[:x.off], before[:x.off]) {
+		x.viol("fec-enc-frame", "encodeOOB: packet is not ffffffff|f3|size|payload or the encoder state moved")
+	}
+}
+
 // emitGroup encodes one whole group with the given payload lengths.
 func (x *runner) emitGroup(lens []int, cont bool) []*sent {
 	var out []*sent
 	for i := 0; i < x.sd; i++ {
+		if x.g.Chance(3) {
+			x.emitOOB(x.g.Bytes(x.g.Intn(40))) // an out-of-band message in mid group
+		}
 		out = append(out, x.emit(x.payload(lens[i%len(lens)]), cont || i < x.sd-1)...)
 	}
 	return out
@@ -629,6 +658,11 @@ func (x *runner) matchedBatch(d, p, off int, pos uint32, arrs [][]int, lk string
 		x.o.Count("pos:before-paws")
 	default:
 		x.o.Count("pos:mid")
+	}
+	if x.g.Chance(15) {
+		// O3: decode of fewer than 6 bytes panics before touching the state (callers guard with >= 8)
+		x.o.Count("d:short-packet")
+		x.feed(x.g.Bytes(x.g.Intn(6)), nil)
 	}
 	var late []*sent
 	for _, arr := range arrs {
